@@ -68,6 +68,7 @@ type wcmd struct {
 	Args      interface{} `json:"args,omitempty"`
 	Mode      string      `json:"mode,omitempty"`
 	ReadUS    int64       `json:"read_us,omitempty"`
+	WipeUS    int64       `json:"wipe_us,omitempty"`
 	WriteUS   int64       `json:"write_us,omitempty"`
 	Jitter    bool        `json:"jitter,omitempty"`
 	MaxWaitMS int64       `json:"max_wait_ms,omitempty"`
@@ -358,6 +359,13 @@ func (w *Worker) Audit() ([]WriteEvent, error) {
 
 func (w *Worker) SetDelay(readUS, writeUS int64, jitter bool) error {
 	_, err := w.call(&wcmd{Cmd: "delay", ReadUS: readUS, WriteUS: writeUS, Jitter: jitter})
+	return err
+}
+
+// SetWipeDelay holds the asynchronous wipe of deleted instances (DeleteAll) for the given time; every other store call
+// runs at full speed (SetDelay with any arguments resets it to 0).
+func (w *Worker) SetWipeDelay(us int64) error {
+	_, err := w.call(&wcmd{Cmd: "delay", WipeUS: us})
 	return err
 }
 
